@@ -38,7 +38,7 @@ RULE = ("each run = 10-40 seeded operations by 2-3 holders over <= 8 shared hand
 
 NAMES = ["BLACK", "RED", "GREEN", "YELLOW", "BLUE", "MAGENTA", "CYAN", "WHITE"]
 N_HANDLES = 8
-ALPHA = "abcxyz0189 _-|ü"
+ALPHA = "abcxyz0189 _-|ü<>^s\t"
 
 
 def init_zygote():
@@ -91,7 +91,7 @@ def model_style(spec):
 # generation
 
 def gen_str(rng, maxlen=12):
-    n = rng.choice([0, 1, 1, 2, 3, 5, 8, maxlen])
+    n = rng.choice([0, 1, 1, 2, 3, 5, 8, maxlen, maxlen, 40 if rng.random() < 0.1 else 2])
     return "".join(rng.choice(ALPHA) for _ in range(n))
 
 
@@ -120,7 +120,7 @@ def gen_bound(rng):
 def gen_spec(rng):
     fill = rng.choice(["", "", "_", "*", "0", " ", "x", ">", "s", "ü"])
     align = rng.choice(["<", ">", "^"]) if (fill or rng.random() < 0.6) else ""
-    width = rng.choice(["", "1", "3", "5", "8", "12", "20", "33"])
+    width = rng.choice(["", "1", "3", "5", "8", "12", "20", "33", "64", "100", "9", "10", "11"])
     typ = rng.choice(["", "", "s"])
     return fill + align + width + typ
 
